@@ -21,6 +21,13 @@ CLAIMED = {
   "note": "Trusted base: the reference encoder (abstract message -> bytes) and the value->abstract walker; field values are sampled with boundary bias; handshake bodies are compared only on well-formed encodings (rejection lists of C04 are not explored).",
   "technique": "deterministic simulation: seeded peers + record-layer packing + byte pipe, sent-log vs delivered-log oracle over one-step and two-step pipelines",
  },
+ "C08": {
+  "category": "exploration",
+  "text": "tls_state_transition judges a two-party conversation seen by a passive third party, so the check simulates the peers (seeded walks through the documented flow grammar), the network to the tap (per-direction latency on a simulated clock, giving cross-direction skew) and a message-level fault layer (loss, duplication, reordering, direction flip, injection of any kind, alert/HelloRequest injection, mid-stream pickup in any of the 25 states), and compares every step of every history with a reference flow acceptor; because the comparison is per step from whatever state the history reached, each step decides one cell of the 25 x 2 x 23 relation, and the evidence reports how many of the 1150 cells were hit (all of them in the quick tier). Histories and message contents are sampled: evidence, not proof.",
+  "design_ref": "DESIGN.md section 3 (C08)",
+  "note": "Trusted base: the reference acceptor is a transcription of the documented flows and of the property statement by the same author as the harness (limited independence); message contents within a kind are sampled.",
+  "technique": "deterministic simulation: seeded two-peer conversations with message-level fault injection, step-by-step agreement with a reference flow acceptor",
+ },
  "C16": {
   "category": "exploration",
   "text": "The argument of the many-parsers in a real reader is the receive buffer: n complete records followed by whatever the network has delivered so far. The simulated monitor applies tls_parser_many (and parse_dtls_plaintext_records on datagrams) to its buffer at every delivery event of seeded streams with truncation, oversize headers, length lies, garbage and corruption, and compares with an explicit loop over the single-record parser (list, remainder by address, fails iff the first record fails); tls_parser is compared with parse_tls_plaintext as full results on every buffer.",
@@ -32,7 +39,6 @@ CLAIMED = {
 PENDING = {
  "C01": "claimed in DESIGN.md; check not built yet in this revision",
  "C06": "claimed in DESIGN.md; check not built yet in this revision",
- "C08": "claimed in DESIGN.md; check not built yet in this revision",
  "C09": "claimed in DESIGN.md; check not built yet in this revision",
  "C10": "claimed in DESIGN.md; check not built yet in this revision",
 }
